@@ -371,15 +371,20 @@ def malformed_cases(tier, rng):
         for j in range(ln):
             if rng.random() < 0.2:
                 m[j] = inv
+        # a map that steps back (kind 1) is a VALID input since fix NC02a: the map of the side that does not drive an m:n
+        # ordered join repeats a run of rows per duplicate key ([0,1,2,0,1,2]); next_map_subchunk ends a sub-chunk at every
+        # step back, so the property's answer is required (and no access outside the source window: `_boundary` makes C10
+        # always include these)
+        tag = {"_stepback": 1, "_boundary": 1} if kind == 1 else {"_malformed": 1}
         if kind == 2:
             vf = rng.choice([1, 2])
             entries = rand_entries(rng, nsrc, 4)
             entries[rng.randrange(nsrc)] = "x" * (cs * vf + rng.randrange(1, 4))
-            out.append(mk_indexed(entries, m, inv, cs, vf, t, _malformed=1))
+            out.append(mk_indexed(entries, m, inv, cs, vf, t, **tag))
         elif t % 8 < 4:
-            out.append(mk_stream("int32", [rng.randrange(1, 99) for _ in range(nsrc)], m, inv, cs, t, _malformed=1))
+            out.append(mk_stream("int32", [rng.randrange(1, 99) for _ in range(nsrc)], m, inv, cs, t, **tag))
         else:
-            out.append(mk_indexed(rand_entries(rng, nsrc, 4), m, inv, cs, 8, t, _malformed=1))
+            out.append(mk_indexed(rand_entries(rng, nsrc, 4), m, inv, cs, 8, t, **tag))
     return out
 
 
@@ -584,11 +589,12 @@ def compare(case, io, mo, mode):
 # ------------------------------------------------------------------------------------------------------------------
 
 def in_regime(case, nsrc, need_monotone):
+    """every valid entry names a source row. (`need_monotone` is kept for the call sites' documentation only: since fix NC02a
+    the streamed mappers end a sub-chunk at every step back, and the property has no monotonicity premise, so a map that
+    steps back is inside the regime.)"""
     m, inv = case["map"], case["inv"]
     valid = [x for x in m if x != inv]
     if any(x < 0 or x >= nsrc for x in valid):
-        return False
-    if need_monotone and any(a > b for a, b in zip(valid, valid[1:])):
         return False
     return True
 
@@ -718,7 +724,7 @@ def classify(case, mo):
 
 
 def select_for_mode(case, mode, tier):
-    if case.get("_malformed") or case.get("_corpus"):
+    if case.get("_malformed") or case.get("_corpus") or case.get("_stepback"):
         return True
     m = case.get("map") or []
     if case.get("_rand"):
